@@ -57,6 +57,12 @@ func runC07(c *Ctx, r *Report) {
 	c05Headers(c, r)
 	c05NoSilentSkip(c, r)
 	c05OmissionBaseType(c, r)
+	// "the same per-type message counts": Encode walks every container member by reflection, so each
+	// message type is held by exactly one member of its container and each decoded message goes to exactly
+	// one member (C03's member and router rules)
+	r.only = map[string]bool{"C03-1-members": true, "C03-2-router": true, "C03-2-arm": true, "C03-2-bijection": true}
+	runC03(c, r)
+	r.only = nil
 	encodeLeavesMessages(c, r, "C07-R6-encode-readonly")
 	c03MessageFlows(c, r) // every decoded record starts from a fresh all-invalid message: no value of an earlier record survives into what is re-encoded
 	roots, missing := c.rootFuncs(encodeRoots)
